@@ -29,8 +29,9 @@ def main(tier, replay=None):
     n = 60 if quick else 600
     camp.run([], [gcgen.random_program(rng, nobj=rng.choice([12, 30, 60]), nops=rng.choice([80, 200, 400])) for _ in range(n)], "random")
     camp.run([], [gcgen.random_program(rng, nobj=40, nops=300, kinds=[k]) for k in gcgen.PLAIN for _ in range(2 if quick else 10)], "random/onekind")
-    camp.run([], [gcgen.chain_program(m, k) for k in ("Ref", "Node", "Box") for m in ((50, 400) if quick else (50, 400, 1500))
-                  if not (k == "Box")], "chain")
+    camp.run([], [gcgen.chain_program(m, k) for k in ("Ref", "Node") for m in ((50, 400) if quick else (50, 400, 1500))], "chain")
+    camp.run([], [["reset", "chain %d %s" % (m, k)] for k in ("Ref", "Node") for m in ((3000, 20000) if quick else (1000, 5000, 20000, 30000))],
+             "longchain")
     chk.cov["rule"] = ("an execution = one mutator program (allocations of every object kind and mode, pointer stores, container "
                        "insertions/removals, root drops, TLS entries, deletions, forced and threshold collections) run in its own "
                        "process; TLC recomputes reachability on the specification's graph at every step and rejects a sweep that took a "
